@@ -33,6 +33,7 @@ package netpoll
 //@ ghost global tkLenVal int
 //@ ghost global tkTriedAfterLen bool
 //@ ghost global tkLenZeroSeen bool
+//@ ghost global tkLiveChecked bool
 //@ ghost global cbRuns int
 
 // structural object invariant of an initialised connection
@@ -148,14 +149,14 @@ package netpoll
 
 // the handler task: runs with the processing token (and the connecting token when it has to run OnConnect)
 //@ func (*connection).onProcess$1
-//@   property C05 C06 C09
+//@   property C04 C05 C06 C09
 //@   requires c != nil && cinv(c)
 //@   requires c.heldP && !c.sealed_heldP && (onConnect != nil ==> c.heldC)
 //@   threadlocal onConnect == nil ==> !c.heldC
 //@   requires onConnect == nil ==> c.state != 0 || c.onConnectCallback.v == nil
 //@   requires onConnect != nil ==> c.state == 0
 //@   takes c.heldP, c.heldC if onConnect != nil
-//@   threadlocal !tkReleased && !tkSawClosing && !tkTriedAfterClosing && !tkSawLen && !tkTriedAfterLen && !tkLenZeroSeen && cbRuns == 0
+//@   threadlocal !tkReleased && !tkSawClosing && !tkTriedAfterClosing && !tkSawLen && !tkTriedAfterLen && !tkLenZeroSeen && !tkLiveChecked && cbRuns == 0
 //@   rely locker.keychain[closing]: (was != 0 ==> now != 0) && now >= 0 && now <= 2
 //@   rely connection.state: now >= was && now <= 2 && (was == 0 && c.heldC ==> now == 0)
 //@   rely locker.keychain[processing]: (c.heldP ==> now == was) && now >= 0 && now <= 1
@@ -163,8 +164,12 @@ package netpoll
 //@   ensures (!c.heldP || c.sealed_heldP) && !c.heldC && cbRuns <= 1
 //@   ensures !c.heldP ==> tkReleased && tkSawClosing && (tkClosingVal != 0 ==> tkTriedAfterClosing) && (onRequest != nil ==> tkSawLen && (tkLenVal > 0 ==> tkTriedAfterLen))
 //@   onpanic (!c.heldP || c.sealed_heldP) && cbRuns <= 1
-//@   modifies world, c.heldP, c.heldC, c.sealed_heldP, cbRuns, tkReleased, tkSawClosing, tkClosingVal, tkTriedAfterClosing, tkSawLen, tkLenVal, tkTriedAfterLen, tkLenZeroSeen
+//@   modifies world, c.heldP, c.heldC, c.sealed_heldP, cbRuns, tkReleased, tkSawClosing, tkClosingVal, tkTriedAfterClosing, tkSawLen, tkLenVal, tkTriedAfterLen, tkLenZeroSeen, tkLiveChecked
 //@   ghost after call invoke.Len#2: tkLenZeroSeen = result == 0
+//@   note after OnConnect the task holds the connecting lock, so a poller that saw the hang-up gave up on OnDisconnect: the task must look at
+//@     the closing state (closed by anybody: IsActive) and take over OnDisconnect before it lets go of the connecting lock
+//@   ghost after call (*connection).IsActive#1: tkLiveChecked = true
+//@   ghost before call (*locker).unlock#1: assert tkLiveChecked
 //@   ghost before call (*connection).closeCallback#1: assert closedBy == 1 || onRequest == nil || tkLenZeroSeen
 //@   ghost after call (*locker).unlock#2: tkReleased = true; tkSawClosing = false; tkTriedAfterClosing = false; tkSawLen = false; tkTriedAfterLen = false
 //@   ghost after call (*locker).status#2: tkSawClosing = tkReleased; tkClosingVal = result
